@@ -336,3 +336,35 @@ Proof.
   intros p H. unfold polygon_eqb. rewrite outline_eqb_refl by exact H. rewrite Nat.eqb_refl.
   rewrite seteq_b_refl; [reflexivity|]. intros h _. apply hole_eqb_refl.
 Qed.
+
+(* ---------- more about the constructor ---------- *)
+
+Lemma norm_ring_area : forall half h r,
+  area2 (norm_ring half h r) = area2 (close_ring r) \/ area2 (norm_ring half h r) = - area2 (close_ring r).
+Proof.
+  intros half h r. unfold norm_ring. destruct (negb _); [right; apply area2_rev|left; reflexivity].
+Qed.
+
+Lemma norm_ring_In : forall half h r c, In c (norm_ring half h r) -> In c r.
+Proof.
+  intros half h r c. unfold norm_ring.
+  assert (Hc : forall x, In x (close_ring r) -> In x r).
+  { intros x. destruct r as [|a t]; [auto|]. unfold close_ring. destruct (closedb (a :: t)); [auto|].
+    intros Hx. apply in_app_or in Hx as [Hx|[Hx|[]]]; [exact Hx|subst; left; reflexivity]. }
+  destruct (negb _); intros H; apply Hc; [apply in_rev|]; exact H.
+Qed.
+
+(* closed rings built by appending the first vertex (GeoRing.linear_rings) *)
+Lemma closedb_app_first : forall o, closedb (o ++ firstn 1 o) = true.
+Proof.
+  intros [|a t]; [reflexivity|]. cbn [firstn]. change ((a :: t) ++ [a]) with (a :: (t ++ [a])).
+  unfold closedb. change (a :: t ++ [a]) with ((a :: t) ++ [a]). rewrite last_app_single. apply coord_eqb_refl.
+Qed.
+
+Lemma closedb_wedge : forall o i, o <> [] -> closedb (o ++ rev i ++ firstn 1 o) = true.
+Proof.
+  intros [|a t] i H; [contradiction|]. cbn [firstn]. rewrite app_assoc.
+  destruct ((a :: t) ++ rev i) as [|b u] eqn:E; [discriminate|].
+  inversion E; subst b. unfold closedb. change ((a :: u) ++ [a]) with (a :: (u ++ [a])).
+  change (a :: u ++ [a]) with ((a :: u) ++ [a]). rewrite last_app_single. apply coord_eqb_refl.
+Qed.
